@@ -761,16 +761,26 @@ def tower_xy_obligations(P, rule="R-GEO"):
         obs.append(eq_ob(rule, site, "tower.y is the northing of (lat, lon) relative to the reference", tower.attrs.get("y"), ey))
     # __post_init__ fills every tower from (domain.ref_lat, domain.ref_lon)
     site = "src/bldfm/config_parser.py::BLDFMConfig.__post_init__"
-    cfg = CM.make_obj(P, "BLDFMConfig", "config", {})
     fn = P.function(CM.MOD, "BLDFMConfig.__post_init__")
-    res = explore(lambda dec: Interp(P, dec), lambda it: it.run_function(mod, fn, [cfg], {}))
+
+    def entry(it):
+        # a fresh configuration per explored path; the towers' previous x, y are arbitrary (tower objects may have been
+        # through another configuration before)
+        cfg = CM.make_obj(P, "BLDFMConfig", "config", {})
+        it.run_function(mod, fn, [cfg], {})
+        return cfg
+
+    res = explore(lambda dec: Interp(P, dec), entry)
     rets = [r for r in res if r.kind == "return"]
     obs.append(req_ob(rule, site, "configuration construction completes", len(rets) >= 1))
-    dom = cfg.attrs["domain"].attrs
-    for k, t in enumerate(cfg.attrs["towers"].items):
-        ex, ey = geo_forward(P, t.attrs["lat"], t.attrs["lon"], dom["ref_lat"], dom["ref_lon"])
-        obs.append(eq_ob(rule, site, "tower %d: x filled from (ref_lat, ref_lon) at construction" % k, t.attrs.get("x"), ex))
-        obs.append(eq_ob(rule, site, "tower %d: y filled from (ref_lat, ref_lon) at construction" % k, t.attrs.get("y"), ey))
+    for pi, r in enumerate(rets):
+        cfg = r.value
+        dom = cfg.attrs["domain"].attrs
+        tag = "" if len(rets) == 1 else " (path %d of %d: %s)" % (pi + 1, len(rets), "; ".join("%s=%s" % (d, b) for d, b in r.path)[:120])
+        for k, t in enumerate(cfg.attrs["towers"].items):
+            ex, ey = geo_forward(P, t.attrs["lat"], t.attrs["lon"], dom["ref_lat"], dom["ref_lon"])
+            obs.append(eq_ob(rule, site, "tower %d: x filled from (ref_lat, ref_lon) at construction%s" % (k, tag), t.attrs.get("x"), ex))
+            obs.append(eq_ob(rule, site, "tower %d: y filled from (ref_lat, ref_lon) at construction%s" % (k, tag), t.attrs.get("y"), ey))
     return obs
 
 
